@@ -67,29 +67,40 @@ def recipes(H, tmp, rng):
     n1 = nodes[-1] if nodes else 1
     pos = {n: (rng.random(), rng.random()) for n in nodes}
     mo = xgi.max_edge_order(H) if not isinstance(H, xgi.DiHypergraph) else 1
-    r = {
-        "adjacency_tensor": lambda: xgi.adjacency_tensor(H, 1),
-        "cut_to_order": lambda: xgi.cut_to_order(H, max(0, (mo or 0) - 1)),
-        "draw_hyperedge_labels": lambda: xgi.draw_hyperedge_labels(H, pos),
-        "draw_node_labels": lambda: xgi.draw_node_labels(H, pos),
-        "edge_neighborhood": lambda: xgi.edge_neighborhood(H, n0),
-        "edge_positions_from_barycenters": lambda: xgi.edge_positions_from_barycenters(H, pos),
-        "empirical_subsets_filter": lambda: xgi.empirical_subsets_filter(H, xgi.to_encapsulation_dag(H)),
-        "is_possible_order": lambda: xgi.is_possible_order(H, 1),
-        "k_skeleton": lambda: xgi.k_skeleton(H, 1),
-        "multiorder_laplacian": lambda: xgi.multiorder_laplacian(H, [1, 2], [1, 1]),
-        "node_connected_component": lambda: xgi.node_connected_component(H, n0),
-        "node_swap": lambda: xgi.node_swap(H, n0, n1),
-        "shuffle_hyperedges": lambda: xgi.shuffle_hyperedges(H, 1, 0.5),
-        "simulate_kuramoto": lambda: xgi.simulate_kuramoto(H, 1, 1, n_steps=5),
-        "single_source_shortest_path_length": lambda: xgi.single_source_shortest_path_length(H, n0),
-        "write_bipartite_edgelist": lambda: xgi.write_bipartite_edgelist(H, os.path.join(tmp, "b.txt")),
-        "write_edgelist": lambda: xgi.write_edgelist(H, os.path.join(tmp, "e.txt")),
-        "write_hif": lambda: xgi.write_hif(H, os.path.join(tmp, "h.json")),
-        "write_hif_collection": lambda: xgi.write_hif_collection([H, H], tmp, "c"),
-        "write_incidence_matrix": lambda: xgi.write_incidence_matrix(H, os.path.join(tmp, "i.txt")),
-        "write_json": lambda: xgi.write_json(H, os.path.join(tmp, "j.json")),
+    # name -> thunk giving (positional arguments after the network, keyword arguments)
+    A = {
+        "adjacency_tensor": lambda: ((1,), {}),
+        "cut_to_order": lambda: ((max(0, (mo or 0) - 1),), {}),
+        "draw_hyperedge_labels": lambda: ((pos,), {}),
+        "draw_node_labels": lambda: ((pos,), {}),
+        "edge_neighborhood": lambda: ((n0,), {}),
+        "edge_positions_from_barycenters": lambda: ((pos,), {}),
+        "empirical_subsets_filter": lambda: ((xgi.to_encapsulation_dag(H),), {}),
+        "is_possible_order": lambda: ((1,), {}),
+        "k_skeleton": lambda: ((1,), {}),
+        "multiorder_laplacian": lambda: (([1, 2], [1, 1]), {}),
+        "node_connected_component": lambda: ((n0,), {}),
+        "node_swap": lambda: ((n0, n1), {}),
+        "shuffle_hyperedges": lambda: ((1, 0.5), {}),
+        "simulate_kuramoto": lambda: ((1, 1), {"n_steps": 5}),
+        "single_source_shortest_path_length": lambda: ((n0,), {}),
+        "write_bipartite_edgelist": lambda: ((os.path.join(tmp, "b.txt"),), {}),
+        "write_edgelist": lambda: ((os.path.join(tmp, "e.txt"),), {}),
+        "write_hif": lambda: ((os.path.join(tmp, "h.json"),), {}),
+        "write_hif_collection": None,
+        "write_incidence_matrix": lambda: ((os.path.join(tmp, "i.txt"),), {}),
+        "write_json": lambda: ((os.path.join(tmp, "j.json"),), {}),
     }
+    def thunk(name, extra=None):
+        def call():
+            if name == "write_hif_collection":
+                return xgi.write_hif_collection([H, H], tmp, "c")
+            args, kw = A[name]()
+            kw = dict(kw); kw.update(extra or {})
+            return getattr(xgi, name)(H, *args, **kw)
+        return call
+    r = {name: thunk(name) for name in A}
+    r["__with__"] = thunk
     return r
 
 
@@ -97,7 +108,7 @@ def recipe_names(surf):
     """the callables the sweep can call: no further required parameter, or a recipe above"""
     import xgi
     rec = recipes(xgi.Hypergraph([[0, 1]]), "/nonexistent", random.Random(0))
-    return [n for n, _, req in surf if not req or n in rec]
+    return [n for n, _, req in surf if not req or n in rec]   # "__with__" is not a surface name
 
 
 def methods(H, rng):
@@ -186,7 +197,13 @@ def sweep(H, surf, tmp, rng, counts):
             params = inspect.signature(f).parameters
         except (TypeError, ValueError):
             params = {}
-        if not [r for r in req if r not in OPTION_VALUES]:
+        if name in rec and name != "write_hif_collection":
+            # a recipe supplies the required arguments; vary the remaining optional ones on top of it
+            nreq = len(req)
+            for pn in list(params)[1 + nreq:]:
+                for val in OPTION_VALUES.get(pn, ()):
+                    calls.append((f"{name}(..., {pn}={val!r})", rec["__with__"](name, {pn: val})))
+        elif not [r for r in req if r not in OPTION_VALUES]:
             for pn in params:
                 for val in OPTION_VALUES.get(pn, ()):
                     kw = {r: OPTION_VALUES[r][0] for r in req}
